@@ -63,9 +63,13 @@ func genC09(g *Gen, tier string) *Program {
 	// rewrites: the string a metric is requested under is then not the string
 	// it is kept under
 	names := []string{"x", "y"}
+	tv, tw := "v", "w"
 	if g.Bool(30) {
 		c.Sanitize = sanMenu[0]
 		names = []string{"x-1", "y.2"}
+		if g.Bool(60) {
+			tv, tw = "v-1", "w.2" // tag values too: the scope is then known under two registry keys
+		}
 	}
 	var script []step
 	for i := g.Range(2, 5); i > 0; i-- {
@@ -91,9 +95,9 @@ func genC09(g *Gen, tier string) *Program {
 			case 3:
 				p.Prelude = append(p.Prelude, Op{K: "sub", S: 0, D: d, Name: "b"})
 			case 4:
-				p.Prelude = append(p.Prelude, Op{K: "tag", S: 0, D: d, Tags: map[string]string{"k": "w"}})
+				p.Prelude = append(p.Prelude, Op{K: "tag", S: 0, D: d, Tags: map[string]string{"k": tw}})
 			default:
-				p.Prelude = append(p.Prelude, Op{K: "tag", S: 0, D: d, Tags: map[string]string{"k": "v"}})
+				p.Prelude = append(p.Prelude, Op{K: "tag", S: 0, D: d, Tags: map[string]string{"k": tv}})
 			}
 			p.Prelude = append(p.Prelude, Op{K: "counter", S: d, M: d, Name: "old"}, Op{K: "inc", M: d, I: 1}, Op{K: "close", S: d})
 		}
@@ -126,9 +130,9 @@ func genC09(g *Gen, tier string) *Program {
 				case 3:
 					ops = append(ops, Op{K: "sub", S: 0, D: nextS, Name: "b"})
 				case 4:
-					ops = append(ops, Op{K: "tag", S: 0, D: nextS, Tags: map[string]string{"k": "w"}})
+					ops = append(ops, Op{K: "tag", S: 0, D: nextS, Tags: map[string]string{"k": tw}})
 				default:
-					ops = append(ops, Op{K: "tag", S: 0, D: nextS, Tags: map[string]string{"k": "v"}})
+					ops = append(ops, Op{K: "tag", S: 0, D: nextS, Tags: map[string]string{"k": tv}})
 				}
 				sv = nextS
 				have[st.scope] = sv
